@@ -1,0 +1,83 @@
+// Copyright JAMF Software, LLC
+
+//go:build verif
+
+package kv
+
+import (
+	"encoding/json"
+	"os"
+	"sync"
+
+	dbsm "github.com/lni/dragonboat/v4/statemachine"
+)
+
+// Optional trace of every metadata state machine of the process, for the verification harness: when the
+// environment variable VERIF_KV_TRACE names a file, one JSON line is appended to it after every Update
+// (raw commands and results) and after every RecoverFromSnapshot (the complete store). This is how runs
+// of the repository's own tests are checked against the specification. Build tag verif only; without
+// the variable nothing happens.
+var verifKVTrace struct {
+	mu   sync.Mutex
+	once sync.Once
+	f    *os.File
+	ids  map[*LFSM]int
+	seq  int
+}
+
+func verifKVTraceFile() *os.File {
+	verifKVTrace.once.Do(func() {
+		if path := os.Getenv("VERIF_KV_TRACE"); path != "" {
+			if f, err := os.OpenFile(path, os.O_CREATE|os.O_APPEND|os.O_WRONLY, 0o644); err == nil {
+				verifKVTrace.f = f
+				verifKVTrace.ids = map[*LFSM]int{}
+			}
+		}
+	})
+	return verifKVTrace.f
+}
+
+func verifKVEmit(fsm *LFSM, ev map[string]any) {
+	verifKVTrace.mu.Lock()
+	defer verifKVTrace.mu.Unlock()
+	id, ok := verifKVTrace.ids[fsm]
+	if !ok {
+		id = len(verifKVTrace.ids) + 1
+		verifKVTrace.ids[fsm] = id
+	}
+	verifKVTrace.seq++
+	ev["pid"], ev["inst"], ev["seq"], ev["shard"], ev["replica"] = os.Getpid(), id, verifKVTrace.seq, fsm.clusterID, fsm.nodeID
+	if b, err := json.Marshal(ev); err == nil {
+		_, _ = verifKVTrace.f.Write(append(b, '\n'))
+	}
+}
+
+// verifUpdated records one successful Update call: the entries with their results.
+func verifUpdated(fsm *LFSM, entries []dbsm.Entry) {
+	if verifKVTraceFile() == nil {
+		return
+	}
+	type ent struct {
+		I    uint64 `json:"i"`
+		Cmd  string `json:"cmd"`
+		Val  uint64 `json:"val"`
+		Data string `json:"data"`
+	}
+	ents := make([]ent, len(entries))
+	for i, e := range entries {
+		ents[i] = ent{e.Index, string(e.Cmd), e.Result.Value, string(e.Result.Data)}
+	}
+	verifKVEmit(fsm, map[string]any{"ev": "update", "ents": ents})
+}
+
+// verifRecovered records the complete store after RecoverFromSnapshot.
+func verifRecovered(fsm *LFSM) {
+	if verifKVTraceFile() == nil {
+		return
+	}
+	b, err := json.Marshal(fsm.store)
+	if err != nil {
+		return
+	}
+	verifKVEmit(fsm, map[string]any{"ev": "recover", "store": string(b)})
+}
